@@ -1,0 +1,6 @@
+//go:build !verif
+
+package cs
+
+// verifPostSolve is a no-op unless built with the "verif" tag.
+func verifPostSolve(*system, any) {}
